@@ -13,7 +13,7 @@ from typing import Any, Dict, List, Optional, Tuple
 
 from hypothesis import strategies as st
 
-from ..core import CaseResult, Family, Violation, pick
+from ..core import CaseResult, Family, HarnessError, Violation, pick
 from ..engines import memwire
 from ..engines.memwire import LogServerSession, Pair, asyncssh
 from ..engines.refconn import RefConn
@@ -981,7 +981,86 @@ def _required():
     return req
 
 
+def run_dupkex(case) -> CaseResult:
+    """The window between the victim's NEWKEYS and the peer's: the exchange
+    calls for nothing but NEWKEYS now.  The peer takes its time with its
+    NEWKEYS and a copy of one of its own, well-formed key exchange messages
+    arrives instead (a duplicate made on the path): the connection has to
+    end - the exchange is over, it must not be run again"""
+
+    log: List[Any] = []
+    ref = RefPeer('client', strict=case['strict'],
+                  kex=[case['kex'].encode()])
+    link = RefLink(ref, {'server_factory': make_server(log, None),
+                         'encoding': None, 'kex_algs': [case['kex']]})
+    sent: List[bytes] = []
+    orig_send = ref.send
+
+    def recording_send(payload, *args, **kw):
+        sent.append(bytes(payload))
+        return orig_send(payload, *args, **kw)
+
+    ref.send = recording_send           # type: ignore
+    ref.hold_newkeys = True
+    labels = {'kex:' + case['kex'],
+              'strict' if case['strict'] else 'non-strict'}
+
+    try:
+        link.start()
+        link.pump()
+
+        if not getattr(ref, 'newkeys_held', False):
+            raise HarnessError('C06 dupkex: exchange did not reach the '
+                               'point where the peer owes its NEWKEYS (%s)'
+                               % (link.rp.error,))
+
+        kexmsgs = [p for p in sent if 30 <= p[0] <= 49]
+
+        if not kexmsgs:
+            raise HarnessError('C06 dupkex: no key exchange message seen')
+
+        dup = kexmsgs[case['which'] % len(kexmsgs)]
+        labels.add('dup-type:%d' % dup[0])
+        before = len(ref.packets)
+        ref.send_plain(dup)
+        link.pump()
+        answers = [p_['type'] for p_ in ref.packets[before:]]
+        dead = ref.disconnected is not None or link.rp.eof or \
+            link.rp.lost or link.conn.is_closed()
+
+        if any(30 <= t <= 49 or t == 21 for t in answers) or not dead:
+            raise Violation(
+                'injected-message-took-effect',
+                '%s, strict=%s: a copy of the client\'s key exchange '
+                'message type %d arriving after the server\'s NEWKEYS '
+                '(and before the client\'s) was answered with packet types '
+                '%r; connection ended: %s' %
+                (case['kex'], case['strict'], dup[0], answers, dead),
+                'dupkex:exchange-run-again')
+
+        if any(e[0] in ('auth_completed', 'session_requested') for e in log):
+            raise Violation('injected-message-took-effect',
+                            'callbacks %r' % log[:3], 'dupkex:callbacks')
+
+        return CaseResult(sorted(labels), True)
+    finally:
+        link.close()
+
+
+def dupkex_cases(tier: str):
+    for kex in ('curve25519-sha256', 'ecdh-sha2-nistp256',
+                'diffie-hellman-group14-sha256',
+                'diffie-hellman-group-exchange-sha256',
+                'curve448-sha512'):
+        for strict in (True, False):
+            for which in (0, 1):
+                yield {'kex': kex, 'strict': strict, 'which': which}
+
+
 FAMILIES = [
+    Family('dupkex', run_dupkex, enumerate=dupkex_cases, exhaustive=True,
+           required={'all': ['strict', 'non-strict', 'dup-type:30']},
+           case_timeout=120),
     Family('grid', run_grid, enumerate=grid, exhaustive=True,
            required={'all': _required()}, case_timeout=120),
     Family('reverse-client', run_grid, enumerate=reverse_grid,
